@@ -21,12 +21,13 @@ type FaultSpec struct {
 }
 
 type SchedSpec struct {
-	K        int     `json:"k"`         // number of pre-emption points aimed at (0 = none)
-	Exact    bool    `json:"exact"`     // PCT-style exact placement (else geometric gaps)
-	HotBias  bool    `json:"hot_bias"`  // postpone a pre-emption to the next hot site
-	Stall    int     `json:"stall"`     // task id starved after its first pre-emption, -1 none
-	StallFor int     `json:"stall_for"` // number of scheduling decisions
-	LowPrio  int     `json:"low_prio"`  // task id only run when nothing else can, -1 none
+	K        int     `json:"k"`                  // number of pre-emption points aimed at (0 = none)
+	Exact    bool    `json:"exact"`              // PCT-style exact placement (else geometric gaps)
+	HotBias  bool    `json:"hot_bias"`           // postpone a pre-emption to the next hot site
+	HotOnly  int     `json:"hot_only,omitempty"` // >0: pre-empt only at hot sites, each visit with this probability (percent)
+	Stall    int     `json:"stall"`              // task id starved after its first pre-emption, -1 none
+	StallFor int     `json:"stall_for"`          // number of scheduling decisions
+	LowPrio  int     `json:"low_prio"`           // task id only run when nothing else can, -1 none
 	MeanGap  int64   `json:"mean_gap,omitempty"`
 	Points   []int64 `json:"points,omitempty"` // the exact global yield indices drawn (informational; replay uses the schedule)
 }
@@ -116,7 +117,7 @@ type Tier struct {
 }
 
 var Tiers = map[string]Tier{
-	"quick":    {Name: "quick", Extra: map[string]int{"sec": 12, "roundtrip": 8, "hist": 4, "fn": 1}, Rounds: 1, Reps: 6, MaxTasks: 8, Faults: true, ChunkSize: 1, NShared: 24, NRecycle: 24},
+	"quick":    {Name: "quick", Extra: map[string]int{"sec": 12, "roundtrip": 8, "hist": 4, "fn": 4}, Rounds: 1, Reps: 6, MaxTasks: 8, Faults: true, ChunkSize: 1, NShared: 24, NRecycle: 24},
 	"thorough": {Name: "thorough", Extra: map[string]int{"sec": 120, "roundtrip": 40, "hist": 20, "fn": 8, "accessors": 4}, Rounds: 4, Reps: 8, MaxTasks: 64, Faults: true, ChunkSize: 1, NShared: 96, NRecycle: 96},
 }
 
@@ -255,9 +256,22 @@ func PlanRun(seed, index uint64, tierName string) *Plan {
 		chunk := Cat.Entries[fl[index] : fl[index]+1]
 		sd := newSeedDraw(r, []int{45, 70, 85}[r.Intn(3)])
 		ntask := 2 + r.Intn(3)
+		// cheap operations are repeated more often: about 1500 yields per task, at
+		// least Reps and at most 10 x Reps calls (costs come from the probe step)
+		reps := t.Reps
+		if cost := Cat.Cost[fl[index]]; cost > 0 {
+			if n := 1500 / cost; n > reps {
+				reps = n
+			}
+			if reps > 10*t.Reps {
+				reps = 10 * t.Reps
+			}
+		} else if Cat.Cost != nil {
+			reps = 4 * t.Reps
+		}
 		for task := 0; task < ntask; task++ {
 			var ops []OpSpec
-			for rep := 0; rep < t.Reps; rep++ {
+			for rep := 0; rep < reps; rep++ {
 				for i := range chunk {
 					e := chunk[i]
 					if task == 2 {
@@ -309,7 +323,10 @@ func PlanRun(seed, index uint64, tierName string) *Plan {
 		p.Sched.K = 0
 	}
 	p.Sched.Exact = p.Sched.K <= 10
-	p.Sched.HotBias = r.Chance(30)
+	p.Sched.HotBias = r.Chance(50)
+	if r.Chance(35) {
+		p.Sched.HotOnly = []int{20, 40, 70}[r.Intn(3)]
+	}
 	if len(p.Tasks) > 2 && r.Chance(15) {
 		p.Sched.Stall = r.Intn(len(p.Tasks))
 		p.Sched.StallFor = 1 + r.Intn(20)
@@ -652,6 +669,9 @@ func (x *execution) simulate(totals []int64, total int64) bool {
 	} else {
 		cfg.HotBias = p.Sched.HotBias
 		cfg.HotSlack = 60
+		if p.Sched.HotOnly > 0 {
+			cfg.HotOnly, cfg.HotProb = true, int64(p.Sched.HotOnly)
+		}
 		switch {
 		case totals == nil:
 			if p.Sched.K > 0 {
@@ -801,6 +821,25 @@ func (x *execution) compare() {
 	rec.Plan = &ex
 	if len(p.Tasks) > 0 && len(p.Tasks[0]) > 0 {
 		rec.Sample = p.Tasks[0][0].String()
+	}
+}
+
+// ProbeCosts runs every catalogue entry once, sequentially, and records how many
+// yields it executes (probe step only; workers load the result from the probe file).
+func ProbeCosts() {
+	c := Cat
+	c.Cost = make([]int, len(c.Entries))
+	vsimrt.SetCounting(true)
+	defer vsimrt.SetCounting(false)
+	for i, e := range c.Entries {
+		total := int64(0)
+		for k := uint64(0); k < 3; k++ {
+			e.Seed = 0x9e3779b97f4a7c15 * (k + 1)
+			in := c.Build(e, nil, 0)
+			runInst(in)
+			total += in.yields
+		}
+		c.Cost[i] = int(total/3) + 1
 	}
 }
 
